@@ -465,7 +465,9 @@ def gen_feature_seq(rng, thorough):
                 if rng.random() < 0.3:
                     ops.insert(rng.randrange(1, len(ops) + 1), "p:%s" % rng.choice(PROBES))
                 for order in (("f", "r") if api == "sax2" else ("f",)):
-                    out.append(("featseq-" + api, "Q %s IG %s %s F:%s" % (api, order, " ".join(ops), rng.choice(["plain", "dws", "svn", "dext1"]))))
+                    # "plain" has no grammar at all: the one kind of document on which Val_Auto and Val_Always differ
+                    for fin in ("plain", rng.choice(["dws", "svn", "dext1", "dbad1"])):
+                        out.append(("featseq-" + api, "Q %s IG %s %s F:%s" % (api, order, " ".join(ops), fin)))
     # random longer sequences over all switches
     for api in APIS:
         for _ in range(60 if not thorough else 1500):
@@ -779,6 +781,7 @@ def run(ctx):
     verdicts = {}
     known_seen = {}
     unexplained = 0
+    per_kind = {}       # violations reported per generator family (cap 3 each, so that one class cannot hide another)
     for (kind, req), i, m in zip(cases, impl, model):
         ctx.count()
         kinds[kind] = kinds.get(kind, 0) + 1
@@ -806,7 +809,8 @@ def run(ctx):
             if len(parts) >= 3 and (parts[1] != "0" or parts[2] != "0"):
                 ctx.distinct((req.split()[1], req.split()[-1], parts[3] if len(parts) > 3 else ""))
             continue
-        if unexplained >= 5:
+        capkey = kind.split("-")[0]
+        if per_kind.get(capkey, 0) >= 3 or unexplained >= 24:
             continue
         if v == "crash":
             continue            # handled when it happened
@@ -816,7 +820,7 @@ def run(ctx):
                                                        "determined by the final read-back values (getFeature / getParameter / "
                                                        "getXxx): a fresh parser on which only those values were set reads back "
                                                        "differently or parses the probe document differently"})
-            unexplained += 1
+            unexplained += 1; per_kind[capkey] = per_kind.get(capkey, 0) + 1
             continue
         if v == "configchanged":
             par = i.split()[1] if len(i.split()) > 1 else "?"
@@ -829,14 +833,14 @@ def run(ctx):
                                             "what": "a setting read back through the public getters (getFeature / getParameter / "
                                                     "getXxx) changed although no configuration call was made: a parse or failed "
                                                     "parse modified the configuration"})
-            unexplained += 1
+            unexplained += 1; per_kind[capkey] = per_kind.get(capkey, 0) + 1
             continue
         if v in ("poolchanged", "adoptchanged", "harness-exception", "bad-request"):
             small = shrink(xh, req) if v in ("poolchanged", "adoptchanged") and req.startswith("H ") else req
             ctx.violation(v, {"request": small, "original_request": req, "impl": i[:3000], "what": {
                 "poolchanged": "the grammar enumerator of a LOCKED pool changed",
                 "adoptchanged": "a previously adopted document changed"}.get(v, "harness could not run the request")})
-            unexplained += 1
+            unexplained += 1; per_kind[capkey] = per_kind.get(capkey, 0) + 1
             continue
         # v == diff
         if req[0] == "T":
@@ -846,7 +850,7 @@ def run(ctx):
                 continue
             ctx.violation("cache-transparency", {"request": req, "impl": i[:3000],
                                                  "what": "validating with a preloaded/cached grammar differs from parsing it inline"})
-            unexplained += 1
+            unexplained += 1; per_kind[capkey] = per_kind.get(capkey, 0) + 1
             continue
         # attribution on the full history first (cheap): the model explains the difference by excepted members AND the
         # difference disappears when the trigger of that finding is taken out of the history; otherwise shrink
@@ -883,7 +887,7 @@ def run(ctx):
         ctx.violation("history", {"request": small, "original_request": req, "impl": (so[0] if so else i)[:3000], "model": sm0,
                                   "what": "the result of the final parse depends on the parser's history (differs from a "
                                           "fresh parser with the same configuration calls)"})
-        unexplained += 1
+        unexplained += 1; per_kind[capkey] = per_kind.get(capkey, 0) + 1
 
     ctx.coverage["traces_validated_against_impl"] = len(lines)
     ctx.coverage["input_distribution"] = kinds
